@@ -128,10 +128,9 @@ struct Obs {
 fn obs_status(s: &str, trace: Vec<(usize, u64)>) -> Obs {
     Obs { status: s.into(), msg: String::new(), iters: 0, trees: vec![], routes: vec![], digest: 0, trace }
 }
-/// `subsearch_only`: keep only what the sub-searches determine (status, trees with all their costs and states).  The
-/// drivers' own post-processing iterates over HashMaps (single-via's intersection queue), so among equal-cost
-/// candidates the routes' split point -- and with it their recomputed costs -- and the driver's own iteration count
-/// vary from run to run even WITHOUT any limit; that is not C10's subject.
+/// `subsearch_only` (no longer used by any stream; kept for experiments): keep only what the sub-searches determine.
+/// Since /repo 78a1dc2 single-via offers its candidates in vertex-id order, so the drivers' complete results
+/// (every route, iteration count, all costs and states) are deterministic and are compared in full.
 fn obs_of(r: Result<SearchAlgorithmResult, SearchError>, trace: Vec<(usize, u64)>, subsearch_only: bool) -> Obs {
     let r = r.map(|mut res| {
         if subsearch_only {
@@ -237,7 +236,7 @@ fn observe(script: &[u64], subsearch_only: bool, job: impl FnOnce() -> Result<Se
 fn observe_watchdog(script: Vec<u64>, ms: u64, job: impl FnOnce() -> Result<SearchAlgorithmResult, SearchError> + std::panic::UnwindSafe + Send + 'static) -> Obs {
     let (tx, rx) = std::sync::mpsc::channel();
     std::thread::spawn(move || {
-        let o = observe(&script, true, job);
+        let o = observe(&script, false, job);
         let _ = tx.send(o);
     });
     match rx.recv_timeout(Duration::from_millis(ms)) {
@@ -290,7 +289,7 @@ fn run_ksp(w: &World, q: &Query, ksp: &Ksp, e: &Entry, is_unlimited: bool) -> Ob
         alg.run_vertex_oriented(VertexId(q2.source), q2.target.map(VertexId), &query_json(&q2), &Direction::Forward, &si)
     };
     match ksp {
-        Ksp::SingleVia { .. } => observe(&e.script, true, job),
+        Ksp::SingleVia { .. } => observe(&e.script, false, job),
         Ksp::Yens { .. } => observe_watchdog(e.script.clone(), if is_unlimited { WATCHDOG_MS } else { 20 * WATCHDOG_MS }, job),
     }
 }
@@ -554,7 +553,7 @@ fn stream_limits(a: &Args) {
 
 // --------------------------------------------------------------------------------------------- stream ksp
 
-fn add_ksp_case(st: &mut Stream, family: &str, w: &World, q: &Query, ksp: &Ksp, entries: Option<Vec<Entry>>, rng: &mut Rng) -> bool {
+fn add_ksp_case(st: &mut Stream, family: &str, w: &World, q: &Query, ksp: &Ksp, entries: Option<Vec<Entry>>, rng: &mut Rng, cap: usize) -> bool {
     let unl = run_ksp(w, q, ksp, &unlimited(), true);
     if unl.status == "Hang" || unl.status == "Panic" {
         // the unlimited driver itself does not return on this input (Yen's algorithm, known finding of C13/C12)
@@ -562,7 +561,7 @@ fn add_ksp_case(st: &mut Stream, family: &str, w: &World, q: &Query, ksp: &Ksp, 
         return false;
     }
     let id = st.next_id();
-    let entries = entries.unwrap_or_else(|| gen_sweep(rng, max_seg_len(&unl.trace), max_size(&unl.trace), 10));
+    let entries = entries.unwrap_or_else(|| gen_sweep(rng, max_seg_len(&unl.trace), max_size(&unl.trace), cap));
     let es: Vec<(Entry, Obs)> = entries.iter().map(|e| (e.clone(), run_ksp(w, q, ksp, e, false))).collect();
     let obs_terms = format!("u {}", coq_list(&es, |(e, o)| format!("({}, {})", coq_entry(e), coq_obs_rel(&unl, o))));
     let m = match ksp {
@@ -604,6 +603,46 @@ fn ksp_from_json(v: &Value) -> Ksp {
     }
 }
 
+/// a first path 0 -> 1 -> .. -> len (unit costs, target = len) and, from every inner vertex i = 1 .. len-2 (the spur
+/// vertices of Yen's first round), a detour to the target: one entry edge of cost `entry_cost[i-1]` followed by a chain
+/// of `detours[i-1]` unit edges over fresh vertices.  The spur search from vertex i needs about detours[i-1] + 1
+/// expansions.  With detours = [20, 0], entry costs [10, 5] and len = 4 this is the network of seeded/C10-3
+/// (vertex and edge numbering differ, the shape and the expansion counts do not).
+fn spur_world(detours: &[usize], entry_cost: &[f64], len: usize) -> (World, Query) {
+    let target = len;
+    let mut n = len + 1;
+    let mut edges: Vec<(usize, usize)> = (0..len).map(|i| (i, i + 1)).collect();
+    let mut cost: Vec<f64> = vec![1.0; len];
+    for (k, d) in detours.iter().enumerate() {
+        let from = k + 1;
+        if *d == 0 {
+            edges.push((from, target));
+            cost.push(entry_cost[k]);
+        } else {
+            edges.push((from, n));
+            cost.push(entry_cost[k]);
+            for j in 0..*d {
+                let to = if j + 1 == *d { target } else { n + j + 1 };
+                edges.push((n + j, to));
+                cost.push(1.0);
+            }
+            n += *d;
+        }
+    }
+    let w = World::new(n, edges, cost);
+    let q = Query { alg: Alg::Dijkstra, dir: Dir::Forward, orient: Orient::Vertex, source: 0, target: Some(target), query_wf: None };
+    (w, q)
+}
+/// every edge also in the other direction (same cost): gives the reverse sub-search of single-via something to do
+fn two_way(w: &World) -> World {
+    let mut w2 = w.clone();
+    for (i, (s, d)) in w.edges.iter().enumerate() {
+        w2.edges.push((*d, *s));
+        w2.cost.push(w.cost[i]);
+    }
+    w2
+}
+
 fn stream_ksp(a: &Args) {
     let mut st = Stream::new(&a.out, "ksp", HEADER10, a.shards);
     if let Some(p) = &a.replay {
@@ -614,7 +653,7 @@ fn stream_ksp(a: &Args) {
         let q = query_from_json(&case["query"]);
         let es: Vec<Entry> = case["entries"].as_array().unwrap().iter().map(entry_from_json).collect();
         let mut rng = Rng::new(0);
-        add_ksp_case(&mut st, "replay", &w, &q, &ksp_from_json(&case["ksp"]), Some(es), &mut rng);
+        add_ksp_case(&mut st, "replay", &w, &q, &ksp_from_json(&case["ksp"]), Some(es), &mut rng, 10);
         st.finish();
         std::process::exit(0);
     }
@@ -629,10 +668,32 @@ fn stream_ksp(a: &Args) {
     for alg in [Alg::Dijkstra, Alg::AStar(None)] {
         for k in [1usize, 3] {
             let mut r = rng.fork();
-            add_ksp_case(&mut st, "diamond", &diamond, &vq(alg, 0, 4), &Ksp::SingleVia { k, cosine: k == 3 }, None, &mut r);
+            add_ksp_case(&mut st, "diamond", &diamond, &vq(alg, 0, 4), &Ksp::SingleVia { k, cosine: k == 3 }, None, &mut r, 40);
         }
         let mut r = rng.fork();
-        add_ksp_case(&mut st, "diamond_yens", &diamond, &vq(alg, 0, 4), &Ksp::Yens { k: 2 }, None, &mut r);
+        add_ksp_case(&mut st, "diamond_yens", &diamond, &vq(alg, 0, 4), &Ksp::Yens { k: 2 }, None, &mut r, 40);
+    }
+    // Yen's driver with spur searches of very different lengths (seeded/C10-3's network: first path [0,1,2,3] with 4
+    // expansions, a 21-expansion spur search from vertex 1 and a 1-expansion spur search from vertex 2): a limit that
+    // lets the first search and one spur search through but stops another spur search must stop the QUERY
+    {
+        let (w, q) = spur_world(&[20, 0], &[10.0, 5.0], 4);
+        for alg in [Alg::Dijkstra, Alg::AStar(None)] {
+            let mut r = rng.fork();
+            add_ksp_case(&mut st, "yens_spur_21_vs_1", &w, &Query { alg, ..q.clone() }, &Ksp::Yens { k: 2 }, None, &mut r, 64);
+        }
+        let mut r = rng.fork();
+        add_ksp_case(&mut st, "single_via_on_spur_network", &two_way(&w), &q, &Ksp::SingleVia { k: 3, cosine: false }, None, &mut r, 64);
+    }
+    for _ in 0..(a.n / 8).max(4) {
+        let mut r = rng.fork();
+        let len = 3 + r.below(3) as usize; // edges of the first path
+        let detours: Vec<usize> = (0..len - 2).map(|_| *r.pick(&[0usize, 0, 1, 2, 4, 7, 12, 18])).collect();
+        let entry_cost: Vec<f64> = detours.iter().map(|d| (len + d + 2) as f64 + r.below(640) as f64 / 64.0).collect();
+        let (w, q) = spur_world(&detours, &entry_cost, len);
+        let alg = if r.chance(1, 2) { Alg::Dijkstra } else { Alg::AStar(None) };
+        let k = if r.chance(1, 5) { 3 } else { 2 };
+        add_ksp_case(&mut st, "yens_spurs_of_different_length", &w, &Query { alg, ..q }, &Ksp::Yens { k }, None, &mut r, 24);
     }
     let mut attempts = 0;
     while st.next_id() < a.n && attempts < 20 * a.n {
@@ -670,7 +731,7 @@ fn stream_ksp(a: &Args) {
             Ksp::Yens { .. } => "random_yens",
             _ => "random_single_via",
         };
-        add_ksp_case(&mut st, family, &w, &q, &ksp, None, &mut r);
+        add_ksp_case(&mut st, family, &w, &q, &ksp, None, &mut r, 10);
     }
     st.finish();
     // abandoned watchdog threads die here
